@@ -419,7 +419,16 @@ def validate_traces(ctx, spec_dir, module, cfg, trace_file, classify, max_reject
     if it repeats) and validation continues with the remainder.
     classify(execution_lines, index_of_rejected_line) -> (key, text)
     """
-    lines = [l for l in open(trace_file).read().split("\n") if l.strip()]
+    lines = []
+    for ln in read_text(trace_file).split("\n"):
+        if not ln.strip():
+            continue
+        try:
+            if not isinstance(json.loads(ln), dict):
+                raise ValueError
+        except ValueError:
+            ln = '{"e":"garbled"}'       # a crashed / memory-corrupting execution: no trace spec accepts this event
+        lines.append(ln)
     execs = split_executions(lines, reset_event)
     shards = shards or min(NCPU, 8)
     # shard executions round-robin in contiguous blocks
@@ -597,3 +606,41 @@ def edge_tours(edges, maxlen=80, init=None):
                 n = t
             tours.append(ops)
     return tours, len(seen_e), len(parent)
+
+
+def run_driver_sharded(ctx, exe, lines, out_path, what="driver", nshards=None, timeout=3000, env=None):
+    """Run a script-driven driver (exe <script> <trace-out>) on `lines` split into shards that run in parallel;
+    the traces are concatenated in shard order into out_path.  Returns True if every shard exited normally."""
+    import concurrent.futures as cf
+    nshards = max(1, min(nshards or NCPU, len(lines)))
+    per = (len(lines) + nshards - 1) // nshards
+    parts = [lines[i:i + per] for i in range(0, len(lines), per)]
+    jobs = []
+    for i, part in enumerate(parts):
+        s = ctx.path("shards", "%s-%d.txt" % (what.replace("/", "_"), i))
+        o = ctx.path("shards", "%s-%d.ndjson" % (what.replace("/", "_"), i))
+        open(s, "w").write("\n".join(part) + "\n")
+        jobs.append((s, o))
+    results = []
+    with cf.ThreadPoolExecutor(max_workers=nshards) as pool:
+        futs = [pool.submit(run_driver, exe, [s, o], None, timeout, env) for s, o in jobs]
+        for f in futs:
+            results.append(f.result())
+    ok = True
+    with open(out_path, "w") as out:
+        for (s, o), (rc, so, se) in zip(jobs, results):
+            if os.path.exists(o):
+                out.write(read_text(o))
+            if rc != 0:
+                ok = False
+                if rc == 124:
+                    ctx.violation("hang/" + what, "%s did not terminate within %ds" % (what, timeout), replay_src=s)
+                else:
+                    ctx.violation("crash/" + what, "%s exited with status %d: %s" % (what, rc, se.strip()[-400:].replace("\n", " | ")), replay_src=s)
+    return ok
+
+
+def read_text(path):
+    """trace files written by a crashing / memory-corrupting mutant may contain arbitrary bytes"""
+    with open(path, "rb") as f:
+        return f.read().decode("utf-8", "replace")
